@@ -35,6 +35,13 @@ def validate(c, lines, nshards, want):
         for s in r.printed("STAT"):
             for k in ("ok", "undet", "kind", "comment", "nontrivial", "commented"):
                 tot[k] += s[k]
+            # diagnostics on is_constant (the verdict on it belongs to C02/C03, which stream the Gen_Constant cases)
+            tot["constant_days_not_constant"] += s.get("constant", 0)
+            tot["is_constant_true"] += 1 if s.get("flag") else 0
+            tot["is_constant_equals_model"] += 1 if s.get("flag") == s.get("model_flag") else 0
+    c.setv("is_constant_diagnostics", {"expressions": len(lines), "flag_true": tot["is_constant_true"],
+                                       "flag_equals_IsConstant_of_DayEval_tla": tot["is_constant_equals_model"],
+                                       "days_contradicting_a_true_flag": tot["constant_days_not_constant"]})
     by_id = {}
     for l in lines:
         e = json.loads(l)
